@@ -726,6 +726,7 @@ func (s *Service) serve(nc Conn) error {
 // Shutdown closes any existing connection to NATS Server.
 // Returns an error if service is not started.
 func (s *Service) Shutdown() error {
+	verifPoint("shutdown.enter", nil)
 	if !atomic.CompareAndSwapInt32(&s.state, stateStarted, stateStopping) {
 		return errNotStarted
 	}
